@@ -1178,7 +1178,7 @@ impl Engine for Bitflip {
                 }
             }
         }
-        let n = if tier == Tier::Quick { 40000 } else { 600000 };
+        let n = if tier == Tier::Quick { 200000 } else { 600000 };
         for i in 0..n {
             let c = gen_case(rng, i % 8 == 7);
             emit(render(&c));
